@@ -101,3 +101,39 @@ def project_term(term, proj):
             if term[0] == "adt":
                 term = term[3][p[1]][1]
     return term
+
+
+def subst_term(term, env):
+    """canonical term with ('sym', name) replaced by constants and constant linear forms folded"""
+    if not isinstance(term, tuple) or not term:
+        return term
+    if term[0] == "sym" and len(term) == 2 and term[1] in env:
+        return ("const", env[term[1]])
+    if term[0] == "lin" and len(term) == 3 and isinstance(term[1], tuple):
+        tot = term[2]
+        rest = []
+        for (a, k) in term[1]:
+            a2 = subst_term(a, env)
+            if isinstance(a2, tuple) and a2 and a2[0] == "const":
+                tot += k * a2[1]
+            else:
+                rest.append((a2, k))
+        if not rest:
+            return ("const", tot)
+        return ("lin", tuple(rest), tot)
+    return tuple(subst_term(x, env) for x in term)
+
+
+def pointwise(rows, limit=1024):
+    """{code: term with arg0 := code} for a single-integer-argument leaf table of at most `limit` codes, else None"""
+    out = {}
+    for (sets, term, s2, rv) in rows:
+        if len(sets) != 1 or sets[0] is None or sets[0].size() > limit:
+            return None
+        for c in sets[0].values():
+            if c in out:
+                return None
+            out[c] = subst_term(term, {"arg0": c})
+        if len(out) > limit:
+            return None
+    return out
